@@ -48,7 +48,7 @@ func DecodeMap(bytes []byte) (*AmmoConfig, error) {
 	if err != nil {
 		return nil, fmt.Errorf("%s, yaml.Unmarshal, %w", op, err)
 	}
-	err = config.DecodeAndValidate(data, &ammoCfg)
+	err = config.DecodeAndValidate(stringifyKeys(data), &ammoCfg)
 	if err != nil {
 		return nil, fmt.Errorf("%s, config.DecodeAndValidate, %w", op, err)
 	}
@@ -57,6 +57,31 @@ func DecodeMap(bytes []byte) (*AmmoConfig, error) {
 		return nil, fmt.Errorf("%s, %w", op, err)
 	}
 	return &ammoCfg, nil
+}
+
+// stringifyKeys turns the map[interface{}]interface{} values yaml.v2 produces into map[string]interface{}.
+// A YAML key is not always a string (`y`, `no`, `1` are a bool, a bool and an int): decoding such a map
+// into a struct makes mapstructure panic, as a string key it is reported as an unknown field.
+func stringifyKeys(v any) any {
+	switch val := v.(type) {
+	case map[string]any:
+		for k, item := range val {
+			val[k] = stringifyKeys(item)
+		}
+		return val
+	case map[any]any:
+		res := make(map[string]any, len(val))
+		for k, item := range val {
+			res[fmt.Sprint(k)] = stringifyKeys(item)
+		}
+		return res
+	case []any:
+		for i, item := range val {
+			val[i] = stringifyKeys(item)
+		}
+		return val
+	}
+	return v
 }
 
 // checkEmptyEntries rejects null list entries (`- ` in YAML): they decode to nil plugins,
